@@ -70,3 +70,139 @@ def entry_fields(draw, etype=None):
         e["counter"] = draw(st.integers(0, 15))
         e["eventgroup"] = draw(u16)
     return e
+
+
+# --------------------------------------------------------------------------- raw SD messages
+@st.composite
+def raw_option(draw, noncanon=True):
+    """an option as it appears on the wire, possibly legal-but-non-canonical or of an arbitrary type"""
+    how = draw(st.sampled_from(["desc", "desc", "desc", "noncanon", "anytype"])) if noncanon else "desc"
+    if how == "anytype":
+        return {"raw": {"type": draw(st.integers(0, 255)), "data": draw(st.binary(max_size=26)).hex()}}
+    o = {"desc": draw(option_desc())}
+    if how == "noncanon":
+        o["reserved"] = draw(st.sampled_from([0, 1, 0x80, 0xFF]))
+        o["reserved2"] = draw(st.sampled_from([0, 1, 0xFF]))
+        if o["desc"]["k"] == "cfg":
+            o["cfg_tail"] = draw(st.binary(max_size=5)).hex()
+    return o
+
+
+def raw_option_bytes(o):
+    if "raw" in o:
+        data = bytes.fromhex(o["raw"]["data"])
+        return len(data).to_bytes(2, "big") + bytes([o["raw"]["type"] & 0xFF]) + data
+    d = o["desc"]
+    if d["k"] == "unk":
+        return wire.encode_option(d)
+    return wire.encode_option(d, reserved=o.get("reserved", 0), reserved2=o.get("reserved2", 0),
+                              cfg_tail=bytes.fromhex(o.get("cfg_tail", "")))
+
+
+@st.composite
+def raw_sd(draw, noncanon=True, max_entries=5, max_options=6):
+    """plain-data description of an SD payload: flags, reserved bytes, raw options, entries with raw index/count fields"""
+    options = draw(st.lists(raw_option(noncanon), max_size=max_options))
+    n = len(options)
+    entries = []
+    for _ in range(draw(st.integers(0, max_entries))):
+        e = draw(entry_fields())
+        for i, c in (("idx1", "n1"), ("idx2", "n2")):
+            cnt = draw(st.integers(0, min(n, 15))) if draw(st.booleans()) else 0
+            e[c] = cnt
+            # an index so that index+count stays inside the array (zero counts with arbitrary in-range index included)
+            e[i] = draw(st.integers(0, n - cnt))
+        if noncanon and draw(st.integers(0, 15)) == 0:
+            e["idx1"] = draw(st.integers(0, 255))  # possibly out of range: must then be rejected
+        entries.append(e)
+    flags = draw(st.sampled_from([0xC0, 0xC0, 0x80, 0x40, 0x00, 0xFF, 0xC1, 0xE0, 0x3F])) if noncanon else draw(st.sampled_from([0xC0, 0x40]))
+    d = {"flags": flags, "options": options, "entries": entries}
+    if noncanon:
+        d["reserved"] = draw(st.sampled_from(["000000", "000000", "010203", "ffffff"]))
+        d["tail"] = draw(st.sampled_from(["", "", "", "00", "deadbeef"]))
+    return d
+
+
+def raw_sd_bytes(d):
+    """-> (payload bytes, list of (offset, width, kind) of every length / count / index / type field)"""
+    fields = []
+    ebuf = b""
+    for n, e in enumerate(d["entries"]):
+        base = 8 + 16 * n
+        fields += [(base, 1, "etype"), (base + 1, 1, "idx"), (base + 2, 1, "idx"), (base + 3, 1, "counts"), (base + 12, 2, "res12")]
+        ebuf += wire.encode_entry(e)
+    obuf = b""
+    ostart = 8 + len(ebuf) + 4
+    for o in d["options"]:
+        ob = raw_option_bytes(o)
+        off = ostart + len(obuf)
+        fields += [(off, 2, "olen"), (off + 2, 1, "otype")]
+        if len(ob) > 4:
+            fields.append((off + 4, 1, "obody"))
+        if o.get("desc", {}).get("k") == "cfg":
+            # string length bytes and one byte inside each string
+            pos = off + 4
+            for key, val in o["desc"]["items"]:
+                ln = len(key) + (0 if val is None else 1 + len(val))
+                fields += [(pos, 1, "cfglen"), (pos + 1, 1, "cfgchar")]
+                pos += 1 + ln
+        obuf += ob
+    fields += [(4, 4, "elen"), (8 + len(ebuf), 4, "olen4"), (0, 1, "flags")]
+    payload = wire.encode_sd(d["flags"], ebuf, obuf, reserved=bytes.fromhex(d.get("reserved", "000000")),
+                             tail=bytes.fromhex(d.get("tail", "")))
+    return payload, fields
+
+
+mut_op = st.one_of(
+    st.tuples(st.just("flip"), st.integers(0, 4095), st.integers(0, 7)),
+    st.tuples(st.just("set"), st.integers(0, 4095), st.sampled_from([0, 1, 0x7F, 0x80, 0xFF, 0x10, 0x0F])),
+    st.tuples(st.just("trunc"), st.integers(0, 4095)),
+    st.tuples(st.just("insert"), st.integers(0, 4095), st.binary(min_size=1, max_size=6).map(bytes.hex)),
+    st.tuples(st.just("dup"), st.integers(0, 4095), st.integers(1, 40)),
+    st.tuples(st.just("field"), st.integers(0, 255), st.sampled_from([0, 1, 2, 3, 5, 15, 16, 17, 0x7F, 0x80, 0xFE, 0xFF, 0xFFFF, 0x10000, 0xFFFFFFFF])),
+    st.tuples(st.just("field+"), st.integers(0, 255), st.sampled_from([-1, 1, -2, 2, 16, -16])),
+    st.tuples(st.just("nonascii"), st.integers(0, 255), st.sampled_from([0x80, 0xC3, 0xFF])),
+)
+
+
+def mutation_script(max_ops=3):
+    return st.lists(mut_op, max_size=max_ops).map(lambda l: [list(x) for x in l])
+
+
+def apply_mutations(data, fields, script, base=0):
+    """apply a mutation script to bytes; `fields` are (offset, width, kind) relative to `base`"""
+    b = bytearray(data)
+    for op in script:
+        if not b and op[0] != "insert":
+            continue
+        k = op[0]
+        if k == "flip":
+            b[op[1] % len(b)] ^= 1 << (op[2] % 8)
+        elif k == "set":
+            b[op[1] % len(b)] = op[2] & 0xFF
+        elif k == "trunc":
+            del b[op[1] % (len(b) + 1) :]
+        elif k == "insert":
+            pos = op[1] % (len(b) + 1)
+            b[pos:pos] = bytes.fromhex(op[2])
+        elif k == "dup":
+            pos = op[1] % len(b)
+            seg = b[pos : pos + op[2]]
+            b[pos:pos] = seg
+        elif k in ("field", "field+", "nonascii"):
+            sel = [f for f in fields if (k != "nonascii" or f[2] == "cfgchar")] or fields
+            if not sel:
+                continue
+            off, width, _ = sel[op[1] % len(sel)]
+            off += base
+            if off + width > len(b):
+                continue
+            if k == "field":
+                v = op[2] & ((1 << (8 * width)) - 1)
+            elif k == "field+":
+                v = (int.from_bytes(b[off : off + width], "big") + op[2]) & ((1 << (8 * width)) - 1)
+            else:
+                v = op[2] & 0xFF
+                width = 1
+            b[off : off + width] = v.to_bytes(width, "big")
+    return bytes(b)
